@@ -58,6 +58,18 @@ Proof. intros s H. unfold ms_log_state. rewrite H. reflexivity. Qed.
 Theorem C35_contract_purge_everything : forall s l,
     (forall p, In p (ms_log s) -> fst p <= l_index l) -> ms_log_state (ms_step s (OPurge l)) = (Some l, Some l).
 Proof. exact purge_all_log_state. Qed.
+Example C35_example_purge_everything :
+  let l := {| l_term := 1; l_node := 1; l_index := 2 |} in
+  let s := ms_run [OAppend [ {| e_id := {| l_term := 0; l_node := 1; l_index := 0 |}; e_pl := PBlank |};
+                             {| e_id := {| l_term := 1; l_node := 1; l_index := 1 |}; e_pl := PBlank |};
+                             {| e_id := l; e_pl := PBlank |} ]] mstore0 in
+  (forall p, In p (ms_log s) -> fst p <= l_index l) /\ ms_log s <> [] /\
+  ms_log_state (ms_step s (OPurge l)) = (Some l, Some l) /\
+  rs_log_state (rs_step (rs_run [OAppend (map snd (ms_log s))] rstore0) (OPurge l)) = (Some l, Some l).
+Proof.
+  cbn zeta. split; [|split; [discriminate|split; reflexivity]].
+  intros p Hp. vm_compute in Hp. destruct Hp as [<-|[<-|[<-|[]]]]; vm_compute; discriminate.
+Qed.
 (* try_get_log_entries returns exactly the entries whose index is in the range (in index order: filter of a sorted log);
    the RocksDB seek/iterate/break version computes the same on reachable logs *)
 Theorem C35_contract_range : forall lo hi l e,
@@ -165,3 +177,19 @@ Example C36_example_nontrivial :
             map fst (d_log d) = [2] /\
             pipeline_groups (sv_state (r_sm (ropen d))) = [(5%N, JNum 1)].
 Proof. eexists. split; [reflexivity|]. split; vm_compute; reflexivity. Qed.
+
+(* Regression witness of the defect fixed in /repo e78345c: recovery that replays only the surviving log
+   entries (the old replay_log) loses the state applied before a purge. *)
+Definition recover_state_log_only (d : disk) : cstate :=
+  match d_applied d with
+  | None => cstate0
+  | Some la => fold_left replay_entry (take_while (fun p => negb (l_index la <? fst p)) (d_log d)) cstate0
+  end.
+Example C36_log_only_recovery_refuted :
+  exists d, In d (crash_disks ex_ops rstore0) /\
+            recover_state_log_only d <> sv_state (sm_apply (gprefix ex_G (acnt (d_applied d))) smv0).
+Proof.
+  destruct C36_example_nontrivial as [d [Hd _]]. exists d. split.
+  - eapply nth_error_In. exact Hd.
+  - vm_compute in Hd. inv Hd. vm_compute. discriminate.
+Qed.
